@@ -132,10 +132,13 @@ def compat : Rule → Kind → Bool
 What the property promises per setting, decided from the field's NAME and KIND only:
 `*Raw` strings are not settings (they are the unparsed twins of the durations);
 the compression switch comes from the later source; every other string / number is
-"later source wins when it sets it" (set = not the zero value); every other bool is a
-switch (or); maps are combined, later wins per key; lists are concatenated. -/
+"later source wins when it sets it" (set = not the zero value) — except `Protocol`, for
+which "sets it" means "is positive": the repository's own TestMergeConfig
+(cmd/serf/command/agent/config_test.go) merges a later `Protocol: -1` over `Protocol: 7`
+and requires 7, so a non-positive protocol version is by design "not set"; every other
+bool is a switch (or); maps are combined, later wins per key; lists are concatenated. -/
 
-inductive Doc | laterIfSet | switch | laterAlways | combine | concat
+inductive Doc | laterIfSet | laterIfPositive | switch | laterAlways | combine | concat
   deriving DecidableEq, Repr
 
 def endsWithRaw (s : String) : Bool :=
@@ -145,6 +148,7 @@ def endsWithRaw (s : String) : Bool :=
 def docOf (fs : FieldSpec) : Option Doc :=
   if endsWithRaw fs.name then none
   else if fs.name == "EnableCompression" then some .laterAlways
+  else if fs.name == "Protocol" then some .laterIfPositive
   else match fs.kind with
     | .str | .int | .dur => some .laterIfSet
     | .bool => some .switch
@@ -162,6 +166,10 @@ def isSet : FieldVal → Bool
   | .int i => i ≠ 0
   | _ => true
 
+def isPositive : FieldVal → Bool
+  | .int i => i > 0
+  | _ => false
+
 def insertTag (p : String × String) : Tags → Tags
   | [] => [p]
   | x :: xs => if p.1 < x.1 || p.1 == x.1 then p :: x :: xs else x :: insertTag p xs
@@ -174,6 +182,7 @@ relational form `Layered` in Props/C31.lean).  Maps: every key of either source,
 source's value winning. -/
 def layerVal : Doc → FieldVal → FieldVal → FieldVal
   | .laterIfSet, a, b => if isSet b then b else a
+  | .laterIfPositive, a, b => if isPositive b then b else a
   | .switch, .bool a, .bool b => .bool (a || b)
   | .laterAlways, _, b => b
   | .concat, .list a, .list b => .list (a ++ b)
